@@ -1,0 +1,64 @@
+//go:build verif
+
+// Contracts for package functional, checked by /verif/gocv (comment-only file; no code).
+
+package functional
+
+//@ spec func isNum(c ast.Constant) bool = c.Type == ast.NumberType
+//@ spec func allNum(a []ast.Constant, n int) bool = forall k int :: 0 <= k && k < n ==> isNum(a[k])
+//@ spec func sumTo(a []ast.Constant, n int) int64 = n <= 0 ? 0 : sumTo(a, n-1) + a[n-1].NumValue
+//@ spec func prodTo(a []ast.Constant, n int) int64 = n <= 0 ? 1 : prodTo(a, n-1) * a[n-1].NumValue
+//@ spec func diffTo(a []ast.Constant, n int) int64 = n <= 1 ? a[0].NumValue : diffTo(a, n-1) - a[n-1].NumValue
+
+// Integer arithmetic is two's-complement ring arithmetic (mode bv: + - * wrap around exactly as Go's).
+
+//@ func evalPlus(args)
+//@   mode bv
+//@   ensures allNum(args, len(args)) ==> err == nil && result == sumTo(args, len(args))
+//@   ensures !allNum(args, len(args)) ==> err != nil
+//@   loop 1 invariant 0 <= rangeindex + 1 && rangeindex + 1 <= len(args)
+//@   loop 1 invariant allNum(args, rangeindex + 1) && sum == sumTo(args, rangeindex + 1)
+
+//@ func evalMult(args)
+//@   mode bv
+//@   ensures allNum(args, len(args)) ==> err == nil && result == prodTo(args, len(args))
+//@   ensures !allNum(args, len(args)) ==> err != nil
+//@   loop 1 invariant 0 <= rangeindex + 1 && rangeindex + 1 <= len(args)
+//@   loop 1 invariant allNum(args, rangeindex + 1) && product == prodTo(args, rangeindex + 1)
+
+//@ func evalMinus(args)
+//@   mode bv
+//@   ensures len(args) == 0 ==> err != nil
+//@   ensures len(args) == 1 && isNum(args[0]) ==> err == nil && result == 0 - args[0].NumValue
+//@   ensures len(args) >= 2 && allNum(args, len(args)) ==> err == nil && result == diffTo(args, len(args))
+//@   ensures len(args) >= 1 && !allNum(args, len(args)) ==> err != nil
+//@   loop 1 invariant 0 <= rangeindex + 1 && rangeindex + 2 <= len(args) && len(args) >= 2
+//@   loop 1 invariant allNum(args, rangeindex + 2) && diff == diffTo(args, rangeindex + 2)
+
+// Truncating division, x == (x div y)*y + (x mod y), division by zero reported as an error.
+
+//@ func evalMod(args)
+//@   mode bv
+//@   ensures len(args) == 2 && isNum(args[0]) && isNum(args[1]) && args[1].NumValue == 0 ==> err == ErrDivisionByZero
+//@   ensures len(args) == 2 && isNum(args[0]) && isNum(args[1]) && args[1].NumValue != 0 ==> err == nil && result == args[0].NumValue % args[1].NumValue
+//@   ensures len(args) != 2 ==> err != nil
+
+//@ spec func divTo(a []ast.Constant, n int) int64 = n <= 1 ? a[0].NumValue : divTo(a, n-1) / a[n-1].NumValue
+//@ spec func noZeroDivisor(a []ast.Constant, n int) bool = forall k int :: 1 <= k && k < n ==> a[k].NumValue != 0
+
+//@ lemma zeroStays(a []ast.Constant, m int, n int):
+//@   1 <= m && m <= n && noZeroDivisor(a, n) && divTo(a, m) == 0 ==> divTo(a, n) == 0
+//@   mode bv
+//@   decreases n - m
+//@   induct zeroStays(a, m, n - 1)
+
+//@ func evalDiv(args)
+//@   mode bv
+//@   ensures len(args) == 0 ==> err != nil
+//@   ensures len(args) >= 1 && !allNum(args, len(args)) ==> err != nil
+//@   ensures len(args) == 1 && isNum(args[0]) && args[0].NumValue == 0 ==> err == ErrDivisionByZero
+//@   ensures len(args) == 1 && isNum(args[0]) && args[0].NumValue != 0 ==> err == nil && result == 1 / args[0].NumValue
+//@   ensures len(args) >= 2 && allNum(args, len(args)) && noZeroDivisor(args, len(args)) ==> err == nil && result == divTo(args, len(args))
+//@   ensures len(args) >= 2 && allNum(args, len(args)) && !noZeroDivisor(args, len(args)) ==> err == ErrDivisionByZero
+//@   loop 1 invariant 0 <= rangeindex + 1 && rangeindex + 2 <= len(args) && len(args) >= 2
+//@   loop 1 invariant allNum(args, rangeindex + 2) && noZeroDivisor(args, rangeindex + 2) && res == divTo(args, rangeindex + 2)
